@@ -875,6 +875,10 @@ def main(ctx):
                calls=2 * 6 + 3 * len(BATTERY_LONG) + 1)
 
     copy_cosmos = list(cosmos) + units_p[::ctx.pick(7, 1)]
+    # every whole-number Hubble constant 30..120 (as H0 and as h): a copy route that re-derives H0 from another stored
+    # quantity (c/DH) returns it one ulp off for about one value in ten
+    copy_cosmos += [cosmo_kw(0.3, "flat", (("H0", float(hh)),)) for hh in range(30, 121)]
+    copy_cosmos += [cosmo_kw(0.3, 0.1, (("h", hh / 100.0),)) for hh in range(30, 121, ctx.pick(3, 1))]
     copy_cosmos = sorted(set(copy_cosmos), key=repr)
 
     def expand_copy(kw):
@@ -1053,4 +1057,5 @@ def main(ctx):
                  [("Dc", 0.1, 1.0), ("Da", 0.2, 0.8), ("sigmacritinv", 0.2, 0.8), ("V", 0.0, 0.5), ("vec", "Dl"),
                   ("copy", "Dm", 0.0, 1.5), ("params",), ("badvec",)],
                  c_do, c_modules, depth=ctx.pick(3, 4), nodedup_depth=ctx.pick(3, 4),
-                 state=lambda c: {k: v for k, v in c.__dict__.items() if k != "Distmod"})
+                 state=lambda c: {k: v for k, v in c.__dict__.items() if k != "Distmod"},
+                 must_raise=lambda kind, op: op[0] == "badvec")
